@@ -58,7 +58,11 @@ fn subset_post_v2tail(post: &Post, plan: &Plan, s: &mut Serializer) -> Result<()
         .allocate_size(glyph_index_arr_len, false)
         .map_err(|_| SubsetError::SubsetTableError(Post::TAG))?;
 
-    let max_old_gid = plan.glyphset.last().unwrap().to_u32() as usize;
+    // a font without glyphs has an empty glyph set: numGlyphs 0, no names
+    let Some(max_old_gid) = plan.glyphset.last() else {
+        return Ok(());
+    };
+    let max_old_gid = max_old_gid.to_u32() as usize;
     // for standard glyphs: name indices < 258
     let glyph_index_iter = glyph_name_indices
         .iter()
@@ -135,4 +139,35 @@ fn subset_post_v2tail(post: &Post, plan: &Plan, s: &mut Serializer) -> Result<()
         s.copy_assign(out_idx, name_idx);
     }
     Ok(())
+}
+
+#[cfg(test)]
+mod test {
+    use super::*;
+    use write_fonts::read::{FontData, FontRead};
+
+    fn subset_to_bytes(post_bytes: &[u8], plan: &Plan) -> Vec<u8> {
+        let post = Post::read(FontData::new(post_bytes)).unwrap();
+        // font and builder are not used by Post::subset
+        let font = FontRef::new(font_test_data::GLYF_COMPONENTS).unwrap();
+        let mut builder = FontBuilder::default();
+        let mut s = Serializer::new(post_bytes.len() + 16);
+        assert_eq!(s.start_serialize(), Ok(()));
+        assert!(post.subset(plan, &font, &mut s, &mut builder).is_ok());
+        s.end_serialize();
+        assert!(!s.in_error());
+        s.copy_bytes()
+    }
+
+    #[test]
+    fn subset_post_v2_empty_glyph_set() {
+        // version 2.0 with numGlyphs 0, subset with an empty glyph set (a font without glyphs)
+        let mut bytes = vec![0u8; 34];
+        bytes[1] = 2;
+        let plan = Plan {
+            subset_flags: SubsetFlags::SUBSET_FLAGS_GLYPH_NAMES,
+            ..Default::default()
+        };
+        assert_eq!(subset_to_bytes(&bytes, &plan), bytes);
+    }
 }
